@@ -1,7 +1,9 @@
 (* C04 - libavoid polyline: routes are true Euclidean shortest paths.
    Only statements closed by `exact`; proofs live in Avoid/CertDijkstra.v, Avoid/RefRouter.v, Avoid/Blocking.v. *)
 From Adapt Require Import Num.Qaux Geom.GeomSpec Gen.Geometry Avoid.SegPolyModel Avoid.SegPoly
-     Avoid.CertDijkstraModel Avoid.CertDijkstra Avoid.RefRouterModel Avoid.RefRouter Avoid.Blocking.
+     Avoid.CertDijkstraModel Avoid.CertDijkstra Avoid.CertDijkstraTotal Avoid.RefRouterModel Avoid.RefRouter
+     Avoid.RefRouterTotal Avoid.Blocking.
+From Adapt Require Graph.AStar.
 Local Open Scope Z_scope.
 
 (* certifying Dijkstra, any finite graph, any integer weights; the outcome Fail is excluded in each statement *)
@@ -49,3 +51,71 @@ Print Assumptions C04_euclid_heuristic_admissible.
 Theorem C04_inValidRegion_eq_spec ig a0 a1 a2 b : inValidRegion ig a0 a1 a2 b = spec_inValidRegion ig a0 a1 a2 b.
 Proof. exact (inValidRegion_eq_spec ig a0 a1 a2 b). Qed.
 Print Assumptions C04_inValidRegion_eq_spec.
+
+(* ---- totality of the certifying search: Fail is impossible on finite graphs with in-range targets, non-negative
+        weights and no parallel edges (each hypothesis is necessary: dijkstra_fail_negative / _parallel / _dangling in
+        Avoid/CertDijkstraTotal.v) *)
+Theorem C04_cert_dijkstra_total N succs s :
+  (s < N)%nat ->
+  (forall u v w, (u < N)%nat -> In (v, w) (succs u) -> (v < N)%nat /\ 0 <= w) ->
+  (forall u, (u < N)%nat -> NoDup (map fst (succs u))) ->
+  forall t, dijkstra N succs s t <> Fail.
+Proof. exact (cert_dijkstra_total N succs s). Qed.
+Print Assumptions C04_cert_dijkstra_total.
+
+Theorem C04_cert_dijkstra_decides N succs s :
+  (s < N)%nat ->
+  (forall u v w, (u < N)%nat -> In (v, w) (succs u) -> (v < N)%nat /\ 0 <= w) ->
+  (forall u, (u < N)%nat -> NoDup (map fst (succs u))) ->
+  forall t,
+  (exists p c, dijkstra N succs s t = Found p c /\ walk succs s t c /\ forall c', walk succs s t c' -> c <= c') \/
+  (dijkstra N succs s t = NoRoute /\ forall c', ~ walk succs s t c').
+Proof. exact (cert_dijkstra_decides N succs s). Qed.
+Print Assumptions C04_cert_dijkstra_decides.
+
+(* the reference router never answers SearchFail, so the optimality statements no longer exclude it *)
+Theorem C04_route_plain_total shapes s d : route_plain shapes s d <> SearchFail.
+Proof. exact (route_plain_total shapes s d). Qed.
+Print Assumptions C04_route_plain_total.
+
+Theorem C04_route_taut_total pen shapes s d : 0 <= pen -> route_taut pen shapes s d <> SearchFail.
+Proof. exact (route_taut_total pen shapes s d). Qed.
+Print Assumptions C04_route_taut_total.
+
+Theorem C04_model_decides shapes s d :
+  (exists pts c, route_plain shapes s d = Route pts c /\ polyline_len pts = c /\
+     forall q, vis_path shapes s d (0%nat :: q) -> last (0%nat :: q) 0%nat = 1%nat ->
+               c <= polyline_len (map (vpt (verts shapes s d)) (0%nat :: q))) \/
+  (route_plain shapes s d = NoPath /\
+     forall q, vis_path shapes s d (0%nat :: q) -> last (0%nat :: q) 0%nat <> 1%nat).
+Proof. exact (C04_model_decides shapes s d). Qed.
+Print Assumptions C04_model_decides.
+
+Theorem C04_model_decides_taut pen shapes s d :
+  0 <= pen ->
+  (exists pts c, route_taut pen shapes s d = Route pts c /\
+     forall q, taut_seq shapes s d 0 (0%nat :: q) -> c <= taut_seq_cost pen shapes s d 0 (0%nat :: q)) \/
+  (route_taut pen shapes s d = NoPath /\ forall q, ~ taut_seq shapes s d 0 (0%nat :: q)).
+Proof. exact (C04_model_decides_taut pen shapes s d). Qed.
+Print Assumptions C04_model_decides_taut.
+
+(* ---- A* with a consistent heuristic as an abstract best-first search (Graph/AStar.v): any vertex type, any
+        tie-breaking; the vertex selected for expansion - in particular the target - carries its exact distance.
+        libavoid's A* itself is tied to the model only by cost equality (checks/c04.py). *)
+Theorem C04_astar_optimal_with_consistent_heuristic
+  (V : Type) (eq_dec : forall x y : V, {x = y} + {x <> y}) (succs : V -> list (V * Z)) (h : V -> Z) (s : V) :
+  (forall u v w, In (v, w) (succs u) -> h u <= w + h v) ->
+  forall g cl t gt,
+  AStar.reach V eq_dec succs h s g cl -> AStar.selectable V h g cl t gt ->
+  AStar.walk V succs s t gt /\ forall c, AStar.walk V succs s t c -> gt <= c.
+Proof. exact (AStar.astar_optimal_with_consistent_heuristic V eq_dec succs h s). Qed.
+Print Assumptions C04_astar_optimal_with_consistent_heuristic.
+
+Theorem C04_astar_exhausted_unreachable
+  (V : Type) (eq_dec : forall x y : V, {x = y} + {x <> y}) (succs : V -> list (V * Z)) (h : V -> Z) (s : V) :
+  (forall u v w, In (v, w) (succs u) -> h u <= w + h v) ->
+  forall g cl,
+  AStar.reach V eq_dec succs h s g cl -> (forall v gv, ~ AStar.is_open V g cl v gv) ->
+  forall v c, AStar.walk V succs s v c -> exists x, g v = Some x.
+Proof. exact (AStar.astar_exhausted_unreachable V eq_dec succs h s). Qed.
+Print Assumptions C04_astar_exhausted_unreachable.
